@@ -181,6 +181,7 @@ def setup(c):
     reach.watch(c, {'arburg': fn})
     reach.probe('arburg-den', fn, 'kp = -2. * num / den', _probe_den)
     install.contract('spectrum.burg', 'arburg', post_arburg, snapshots=[('X0', _snap)])
+    reach.cover(c, {'arburg': fn})
 
 
 KINDS = ['noise', 'tones', 'int', 'ar', 'trend', 'dyn', 'alt']
